@@ -538,3 +538,51 @@ Proof.
   assert (E4 : qeq (1 - x) 0 = false) by (destruct (qeq (1 - x) 0) eqn:E; [apply qeq_iff in E; congruence|reflexivity]).
   rewrite E1, E2, E3, E4. reflexivity.
 Qed.
+
+(* ---------------------------------------------------------------------------------------- *)
+(* AUC: stable insertion sort by x is a sorted permutation; trapezoid rule *)
+Definition le1 (p q : Qc * Qc) : Prop := fst p <= fst q.
+Lemma ins_pair_perm p : forall l, Permutation (p :: l) (ins_pair p l).
+Proof.
+  induction l as [|q l IH]; cbn [ins_pair]; [apply Permutation_refl|].
+  destruct (qlt (fst q) (fst p)); [|apply Permutation_refl].
+  eapply perm_trans; [apply perm_swap|]. apply perm_skip. exact IH.
+Qed.
+Lemma sort_pairs_perm : forall l, Permutation l (sort_pairs l).
+Proof.
+  induction l as [|p l IH]; [apply Permutation_refl|]. unfold sort_pairs. cbn [fold_right]. fold (sort_pairs l).
+  eapply perm_trans; [apply perm_skip; exact IH|]. apply ins_pair_perm.
+Qed.
+Lemma ins_pair_sorted p : forall l, StronglySorted le1 l -> StronglySorted le1 (ins_pair p l).
+Proof.
+  induction l as [|q l IH]; intros Hs; cbn [ins_pair].
+  - constructor; constructor.
+  - inversion Hs as [|? ? Hs' Hq]; subst. destruct (qlt (fst q) (fst p)) eqn:E.
+    + constructor; [apply IH; exact Hs'|].
+      eapply Permutation_Forall; [apply ins_pair_perm|]. constructor; [|exact Hq].
+      apply qlt_iff in E. apply Qclt_le_weak. exact E.
+    + apply qlt_false in E. constructor; [exact Hs|]. constructor; [exact E|].
+      eapply Forall_impl; [|exact Hq]. intros r Hr. unfold le1 in *. eapply Qcle_trans; eassumption.
+Qed.
+Lemma sort_pairs_sorted : forall l, StronglySorted le1 (sort_pairs l).
+Proof.
+  induction l as [|p l IH]; [constructor|]. unfold sort_pairs. cbn [fold_right]. fold (sort_pairs l).
+  apply ins_pair_sorted. exact IH.
+Qed.
+(* stability: pairs with equal x keep their input order (an inserted element goes BEFORE equal ones,
+   and insertion proceeds from the right) *)
+Lemma ins_pair_stable p q l : fst p = fst q -> ins_pair p (q :: l) = p :: q :: l.
+Proof.
+  intros E. cbn [ins_pair]. rewrite E. assert (H : qlt (fst q) (fst q) = false) by (apply qlt_false, Qcle_refl).
+  rewrite H. reflexivity.
+Qed.
+Lemma trapz_step a b r : trapz (a :: b :: r) = (fst b - fst a) * (snd a + snd b) * half + trapz (b :: r).
+Proof. reflexivity. Qed.
+Lemma auc_row_spec reorder xs ys :
+  exists l, auc_row reorder xs ys = trapz l /\ Permutation (combine xs ys) l
+            /\ (if reorder then StronglySorted le1 l else l = combine xs ys).
+Proof.
+  unfold auc_row. destruct reorder.
+  - exists (sort_pairs (combine xs ys)). split; [reflexivity|]. split; [apply sort_pairs_perm|apply sort_pairs_sorted].
+  - exists (combine xs ys). split; [reflexivity|]. split; [apply Permutation_refl|reflexivity].
+Qed.
